@@ -212,7 +212,8 @@ impl H {
                 st.prod.threads.len() - 1
             }
         };
-        if p.name != "rebuild.before_add" {
+        // a producer waits for its turn before it starts on an asset and before every document
+        if p.name != "rebuild.before_add" && p.name != "rebuild.asset_start" {
             return;
         }
         if st.prod.threads[me].go == 0 {
@@ -232,7 +233,7 @@ impl H {
         if st.prod.threads[me].go > 0 {
             st.prod.threads[me].go -= 1;
         }
-        let h = fnv1a(format!("{:?}", st.prod.threads[me].key).as_bytes());
+        let h = fnv1a(format!("{:?}{}", st.prod.threads[me].key, p.name).as_bytes());
         st.prod.feed.extend_from_slice(&h.to_le_bytes()[..2]);
     }
 
